@@ -54,10 +54,12 @@ func (p *Prop) Meta() simkit.Meta {
 
 type plan struct {
 	calls     []call
+	entry     []int // catalogue entry of each call
 	taskCalls [][]int
 	policy    simhook.Policy
 	histOrder []int
 	histIvs   [][]intervening // intervening calls before each position
+	histSibs  []*call         // a call of the same catalogue entry with other arguments, run just before (nil: none)
 }
 
 type runCtx struct {
@@ -136,6 +138,7 @@ func (p *Prop) Run(t *simhook.Tape, opt simkit.RunOpt) *simkit.RunResult {
 			cl := p.cat[i].gen(g, c.pl)
 			cl.name = p.cat[i].name
 			pln.calls = append(pln.calls, cl)
+			pln.entry = append(pln.entry, i)
 		}
 	} else {
 		n := g.Range(2, 12)
@@ -144,6 +147,7 @@ func (p *Prop) Run(t *simhook.Tape, opt simkit.RunOpt) *simkit.RunResult {
 			cl := p.cat[e].gen(g, c.pl)
 			cl.name = p.cat[e].name
 			pln.calls = append(pln.calls, cl)
+			pln.entry = append(pln.entry, e)
 		}
 	}
 	ntasks := 2 + g.Pick(4, 3, 3, 2, 1, 1, 1, 0, 0, 0, 0, 0, 0, 0, 1)
@@ -194,7 +198,17 @@ func (p *Prop) Run(t *simhook.Tape, opt simkit.RunOpt) *simkit.RunResult {
 	}
 	// history plan
 	pln.histOrder = g.Perm(len(pln.calls))
-	for range pln.histOrder {
+	for _, ci := range pln.histOrder {
+		// state keyed by function rather than by argument (a stale one-entry cache,
+		// a warm start) shows when the same entry point is called with other
+		// arguments just before
+		var sib *call
+		if g.Chance(1, 2) {
+			sc := p.cat[pln.entry[ci]].gen(g, c.pl)
+			sc.name = p.cat[pln.entry[ci]].name
+			sib = &sc
+		}
+		pln.histSibs = append(pln.histSibs, sib)
 		var ivs []intervening
 		for k := g.Pick(2, 3, 1); k > 0; k-- {
 			ivs = append(ivs, genIntervening(g, c.pl))
@@ -376,6 +390,19 @@ func (c *runCtx) history(t *simhook.Tape) *simhook.Abort {
 					}
 					c.sh.enter(0, iv.name, 1)
 					ok := c.invariant(0, "after an intervening in-place/aborted call in history mode (only the documented target may change)")
+					c.sh.leave(0)
+					if !ok {
+						return
+					}
+				}
+				if sib := c.pln.histSibs[pos]; sib != nil {
+					c.logf("history: same entry with other arguments first: %s (%s)", sib.name, sib.desc)
+					c.sh.enter(0, sib.name, 1)
+					if _, a := exec(sib); a != nil {
+						ab = a
+						return
+					}
+					ok := c.invariant(0, "after a sibling call, history mode")
 					c.sh.leave(0)
 					if !ok {
 						return
